@@ -2,6 +2,7 @@ package rules
 
 import (
 	"go/token"
+	"go/types"
 
 	"golang.org/x/tools/go/ssa"
 
@@ -135,7 +136,9 @@ func workerExitRule(c *core.Ctx, r *core.Report) {
 										okHelper = false
 										continue
 									}
-									k, isK := hr.Results[0].(*ssa.Const)
+									// (results of a function with defers are read back from a spilled local)
+									res := stripAllocs(hr.Results[0])
+									k, isK := res.(*ssa.Const)
 									if isK && k.Value != nil && (k.Value.String() == "true") != val {
 										continue // the other value: the worker stays
 									}
@@ -153,10 +156,16 @@ func workerExitRule(c *core.Ctx, r *core.Report) {
 												viaStop = true
 											}
 										}
-										if !viaLimit && !viaStop {
+										// … or on the arm of a select that fired because the pool's worker context ended (the limit
+										// path cancels it, and so does the end of the run)
+										viaCtx := false
+										if sel, idx := an.ArmOf(hr); sel != nil && idx >= 0 && (isPoolCtxMethod(sel.States[idx].Chan, "Done") || isPoolStopChan(sel.States[idx].Chan)) {
+											viaCtx = true
+										}
+										if !viaLimit && !viaStop && !viaCtx {
 											okHelper = false
 										}
-									} else if !derivesFromStopFlag(hr.Results[0], 0) {
+									} else if !derivesFromStopFlag(res, 0) && !poolCtxAlive(res, val) {
 										okHelper = false
 									}
 								}
@@ -318,4 +327,40 @@ func joinedGo(g *ssa.Go) bool {
 		}
 	}
 	return false
+}
+
+// isPoolCtxMethod: v is `ctx.<name>()` on a context kept in a field of a pool type of internal/workers.
+func isPoolCtxMethod(v ssa.Value, name string) bool {
+	call, ok := an.Strip(v).(*ssa.Call)
+	if !ok || !call.Common().IsInvoke() || call.Common().Method.Name() != name {
+		return false
+	}
+	fld, _ := an.TerminalField(call.Common().Value)
+	return fld != nil && fld.Pkg() != nil && fld.Pkg().Path() == workersPkg && an.IsNamed(fld.Type(), "context", "Context")
+}
+
+// poolCtxAlive: the value is `ctx.Err() == nil` (or its negation) on the pool's worker context, and the leaving value
+// is the one it takes when the context has ended.
+func poolCtxAlive(v ssa.Value, leaving bool) bool {
+	bo, ok := an.Strip(v).(*ssa.BinOp)
+	if !ok || !isNilConst(bo.Y) || !isPoolCtxMethod(bo.X, "Err") {
+		return false
+	}
+	switch bo.Op {
+	case token.EQL: // true while alive: leaving on false
+		return !leaving
+	case token.NEQ:
+		return leaving
+	}
+	return false
+}
+
+// isPoolStopChan: a channel kept in a field of a pool type of internal/workers (closed when the pool stops).
+func isPoolStopChan(v ssa.Value) bool {
+	fld, _ := an.TerminalField(v)
+	if fld == nil || fld.Pkg() == nil || fld.Pkg().Path() != workersPkg {
+		return false
+	}
+	_, isChan := fld.Type().Underlying().(*types.Chan)
+	return isChan
 }
